@@ -58,6 +58,30 @@ func (e *epochNotifier) set(epoch uint32) {
 	}
 }
 
+// faultyAccounts is the simulator's seam between the transaction processor and the real AccountsDB: a pass-through
+// that can make the n-th SaveAccount call of one ProcessTransaction fail (storage error) without applying it.
+type faultyAccounts struct {
+	state.AccountsAdapter
+	c     *simkit.Ctx
+	armed bool
+	at    int
+	calls int
+}
+
+func (f *faultyAccounts) SaveAccount(a vmcommon.AccountHandler) error {
+	if f.armed {
+		n := f.calls
+		f.calls++
+		if n == f.at {
+			f.c.Fault("save_error")
+			return simkit.ErrInjected
+		}
+	}
+	return f.AccountsAdapter.SaveAccount(a)
+}
+
+func (f *faultyAccounts) IsInterfaceNil() bool { return f == nil }
+
 // ---- reference model ----------------------------------------------------------------------------------
 
 type acct struct {
@@ -75,6 +99,7 @@ type world struct {
 	disk   *simkit.SimDisk
 	tsm    data.StorageManager
 	adb    *state.AccountsDB
+	facc   *faultyAccounts
 	txp    process.TransactionProcessor
 	econ   process.EconomicsDataHandler
 	fees   process.TransactionFeeHandler
@@ -98,6 +123,8 @@ type world struct {
 
 	txLog []loggedTx  // every transaction object built from a tx step, for re-execution after an abandoned block attempt
 	hist  []histEntry // the executed (not rejected) transactions since the last commit/abandon, newest last
+
+	stray map[string]*big.Int // per tx hash: fees booked by transactions that were aborted by a fault after the booking
 
 	committedUsers []acct   // the model at the last commit (newBlockAttempt goes back to it)
 	committedTotal *big.Int // the conserved total at the last commit
@@ -211,6 +238,7 @@ func (w *world) newTxProcessor() error {
 	if err != nil {
 		return err
 	}
+	w.facc = &faultyAccounts{AccountsAdapter: w.adb, c: w.c}
 	shardC := mock.NewOneShardCoordinatorMock()
 	tth, err := coordinator.NewTxTypeHandler(coordinator.ArgNewTxTypeHandler{
 		PubkeyConverter:        pkc,
@@ -224,7 +252,7 @@ func (w *world) newTxProcessor() error {
 		return err
 	}
 	w.txp, err = txproc.NewTxProcessor(txproc.ArgsNewTxProcessor{
-		Accounts:                       w.adb,
+		Accounts:                       w.facc,
 		Hasher:                         blake2b.NewBlake2b(),
 		PubkeyConv:                     pkc,
 		Marshalizer:                    w.marsh,
@@ -592,6 +620,7 @@ func (w *world) restart() bool {
 
 func (w *world) markCommitted() {
 	w.hist = nil
+	w.stray = nil // CreateBlockStarted forgot the per-hash entries; the amounts stay in the closed total
 	w.committedUsers = make([]acct, len(w.users))
 	for i := range w.users {
 		w.committedUsers[i] = w.users[i].clone()
@@ -615,6 +644,7 @@ func (w *world) newBlockAttempt() bool {
 	w.accFees = big.NewInt(0)
 	w.total = new(big.Int).Set(w.committedTotal)
 	w.hist = nil
+	w.stray = nil
 	c.Eventf("newBlockAttempt: back to the last commit")
 	c.Probe("block_attempt_abandoned")
 	if got := w.fees.GetAccumulatedFees(); got.Sign() != 0 {
@@ -661,6 +691,14 @@ func (w *world) dropLastMiniblock(k int) bool {
 		w.users[i] = first.users[i].clone()
 	}
 	w.accFees = new(big.Int).Set(first.accFees)
+	for _, h := range hashes {
+		if s := w.stray[string(h)]; s != nil && s.Sign() > 0 {
+			w.accFees.Sub(w.accFees, s)
+			w.total.Sub(w.total, s)
+			delete(w.stray, string(h))
+			c.Probe("stray_fee_removed_with_dropped_hash")
+		}
+	}
 	if got := w.fees.GetAccumulatedFees(); got.Cmp(w.accFees) != 0 {
 		c.Violate("C23", "fee-collector-after-dropped-miniblock", "RevertFees", "accumulated fees = %s after dropping %d transactions by hash, the fees accounted before them were %s", got, k, w.accFees)
 		return true
@@ -834,14 +872,25 @@ func (w *world) execTx(tx *transaction.Transaction, snd, rcv int, fault string, 
 	// ---- what the block processor does around one transaction ----
 	snapshot := w.adb.JournalLen()
 	before.journalLen = snapshot
-	firedBefore := c.Faults["get_error"]
+	// the unchanged code takes the success path for sure when the balance covers value + gasLimit*gasPrice
+	sureSuccess := tx.Nonce == ms.nonce && w.econ.CheckValidityTxValues(tx) == nil &&
+		ms.bal.Cmp(new(big.Int).Add(tx.Value, maxCost)) >= 0
+	firedBefore := c.Faults["get_error"] + c.Faults["save_error"]
 	getsBefore := w.disk.Gets
-	if fault == "get_error" {
+	switch fault {
+	case "get_error":
 		w.disk.Arm("get_error", faultAt)
+	case "save_error":
+		// only where the path through the processor is determined (charged failure or sure success), so that the
+		// one tolerated effect of a failed save (see below) is attributed to the right path
+		if predictedInsufficientFunds || sureSuccess {
+			w.facc.armed, w.facc.at, w.facc.calls = true, faultAt, 0
+		}
 	}
 	_, err := w.txp.ProcessTransaction(tx)
 	w.disk.Disarm()
-	fired := c.Faults["get_error"] > firedBefore
+	w.facc.armed = false
+	fired := c.Faults["get_error"]+c.Faults["save_error"] > firedBefore
 	if w.disk.Gets > getsBefore {
 		c.Probe("tx_with_disk_reads")
 	}
@@ -925,13 +974,24 @@ func (w *world) execTx(tx *transaction.Transaction, snd, rcv int, fault string, 
 
 	// narrow relaxation under a fired fault: the aborted transaction may already have handed its fee to the
 	// accumulator (ProcessTransactionFee precedes SaveAccount in executingFailedTransaction); accounts are never relaxed
-	if fired && class == "rejected" && obsFees.Cmp(expFees) != 0 {
+	// (this is how the UNCHANGED executingFailedTransaction behaves when its SaveAccount fails; the success path books
+	// the fee only after the last save, so nothing is tolerated when the transaction was a sure success)
+	if fired && class == "rejected" && !sureSuccess && obsFees.Cmp(expFees) != 0 {
 		d := new(big.Int).Sub(obsFees, expFees)
-		if d.Cmp(txFee) == 0 || d.Cmp(moveFee) == 0 {
+		if d.Cmp(txFee) == 0 {
 			c.Probe("fee_accounted_before_faulted_abort")
 			expFees.Set(obsFees)
 			w.total.Add(w.total, d)
 			w.hist = nil // that stray booking is not tied to a kept transaction: no miniblock drop across it
+			// ... but the fee handler keyed it by the transaction's hash: dropping a later execution of the same
+			// transaction object by hash removes the stray booking together with the real one
+			if w.stray == nil {
+				w.stray = map[string]*big.Int{}
+			}
+			if w.stray[string(txHash)] == nil {
+				w.stray[string(txHash)] = big.NewInt(0)
+			}
+			w.stray[string(txHash)].Add(w.stray[string(txHash)], d)
 		}
 	}
 
